@@ -279,8 +279,8 @@ class TCPPacketGenerator(Device, OutMixIn):
                     f"flow_id {packet.flow_id} at time {env.now:.4f}"
                 )
                 assert self.out
-                self.out.put(packet)
-
+                # arm the timer before the segment leaves: on a delay-free
+                # path the ACK comes back inside out.put()
                 self.next_seq += packet.size
                 self.timers[packet.packet_id] = Timer(
                     env,
@@ -292,6 +292,7 @@ class TCPPacketGenerator(Device, OutMixIn):
                     f"Setting a timer for packet {packet.packet_id} with an "
                     f"RTO of {self.rto:.4f}"
                 )
+                self.out.put(packet)
             else:
                 yield self.cwnd_avaialbe.get()
 
@@ -303,12 +304,13 @@ class TCPPacketGenerator(Device, OutMixIn):
         )
         self.congestion_control.timer_expired()
 
-        # retransmit the segment
-        self.resend_packet(packet_id)
-
-        # start a new timer for this segment and doubling the RTO
+        # start a new timer for this segment and doubling the RTO (before the
+        # retransmission: its ACK may come back inside resend_packet())
         self.rto *= 2
         self.timers[packet_id].restart(self.rto)
+
+        # retransmit the segment
+        self.resend_packet(packet_id)
 
     def put(self, ack: Packet):
         """Upon receiving an acknowledgement packet"""
